@@ -129,6 +129,22 @@ func multiScenarios() []*harness.Scenario {
 			After:  4,
 		},
 		{
+			// two unstakes of one stake account maturing at the same height
+			Kind: action.SEND.String(), Note: "multi-two-unstakes-of-one-account-mature-in-one-endblock",
+			World: four("multi-unstake2"),
+			Prefix: func(w *harness.World) []harness.BlockSpec {
+				v := w.Vals[0]
+				return []harness.BlockSpec{{}, {},
+					{Txs: []*harness.TxSpec{
+						stk.Unstake(v.Val, v.Stake, stk.WholeOLT(30), "mu-u1"),
+						stk.Unstake(v.Val, v.Stake, stk.WholeOLT(40), "mu-u2"),
+					}},
+				}
+			},
+			Target: send("mu-send"),
+			After:  5,
+		},
+		{
 			// an EVM call that clears a storage slot (non-zero -> zero): the only way to a gas refund
 			Kind: action.OLVM.String(), Note: "multi-call-clears-storage-slot-gas-refund",
 			World: func() *harness.World { return harness.NewWorld("multi-refund", 4, 3) },
